@@ -229,3 +229,261 @@ fn rdata_equal(x: &ScannedRecord, r: &FlatRecord) -> bool {
     let y: FlatData = x.data().clone().flatten_into();
     y == *r.data()
 }
+
+// ------------------------------------------- routes and zones (C06, round 5)
+// Further ways to build the record that is written, to write it, and to set
+// up the reader.  All of them are aliases as far as Presentation.tla is
+// concerned: the expectation of a case does not depend on the route.
+use bytes::{BufMut, BytesMut};
+use domain::base::charstr::{CharStr, CharStrBuilder};
+use domain::base::rdata::UnknownRecordData;
+use domain::base::record::RecordHeader;
+use domain::base::zonefile_fmt::{self, FormatWriter, Formatter};
+use domain::rdata::{AllRecordData, Cname, Dname, Hinfo, Mx, Ns, Ptr, Txt};
+use domain::rdata::rfc1035::TxtBuilder;
+use octseq::octets::OctetsFrom;
+use octseq::builder::OctetsBuilder;
+
+pub const MK_ROUTES: &[&str] = &["new", "tuple_u32", "tuple_ttl", "in_default", "header", "parse"];
+pub const MKD_ROUTES: &[&str] = &["wire", "typed", "builder"];
+pub const WR_ROUTES: &[&str] = &["zone", "all", "ref", "parsed"];
+pub const CTOR_ROUTES: &[&str] = &["from_slice", "from_str", "load", "bufmut", "extend", "default_reserve"];
+
+fn charstrs_of(mut rdata: &[u8]) -> Option<Vec<Vec<u8>>> {
+    let mut v = vec![];
+    while let Some(&n) = rdata.first() {
+        let n = n as usize;
+        if rdata.len() <= n { return None; }
+        v.push(rdata[1..=n].to_vec());
+        rdata = &rdata[n + 1..];
+    }
+    Some(v)
+}
+
+fn ttl_via_units(secs: u32) -> Ttl {
+    // Ttl::from_days / from_hours / from_mins / from_duration_lossy: the same value
+    if secs % 86400 == 0 && secs / 86400 <= 49710 { Ttl::from_days((secs / 86400) as u16) }
+    else if secs % 3600 == 0 { Ttl::from_hours(secs / 3600) }
+    else if secs % 60 == 0 { Ttl::from_mins(secs / 60) }
+    else { Ttl::from_duration_lossy(std::time::Duration::new(secs as u64, 999_999)) }
+}
+
+/// Record data built another way than by parsing its wire form.  Returns
+/// None where the route has nothing to offer for the type (the caller falls
+/// back to the wire form).
+fn data_via(mkd: &str, rtype: u16, rdata: &[u8]) -> Option<Result<FlatData, String>> {
+    let name_at = |at: usize| Name::<Bytes>::from_octets(Bytes::copy_from_slice(&rdata[at..])).map_err(|e| format!("name: {}", e));
+    let e = |s: String| Some(Err(s));
+    match (mkd, rtype) {
+        ("typed", 16) => Some(Txt::<Bytes>::from_octets(Bytes::copy_from_slice(rdata)).map(FlatData::from).map_err(|x| x.to_string())),
+        ("builder", 16) => {
+            let strs = charstrs_of(rdata)?;
+            if strs.len() == 1 && !strs[0].is_empty() {
+                // one string: octet by octet, then through Txt<Vec<u8>> and OctetsFrom
+                let mut b = TxtBuilder::<Vec<u8>>::default();
+                for ch in &strs[0] { if let Err(x) = b.append_u8(*ch) { return e(x.to_string()); } }
+                let t = match b.finish() { Ok(t) => t, Err(x) => return e(x.to_string()) };
+                if t.as_flat_slice() != Some(&strs[0][..]) { return e("as_flat_slice differs".into()); }
+                Some(Txt::<Bytes>::try_octets_from(t).map(FlatData::from).map_err(|_| "octets_from".to_string()))
+            } else {
+                let mut b = TxtBuilder::new_bytes();
+                for s in &strs {
+                    let cs = match CharStr::from_slice(s) { Ok(c) => c, Err(x) => return e(x.to_string()) };
+                    if let Err(x) = b.append_charstr(cs) { return e(x.to_string()); }
+                }
+                Some(b.finish().map(FlatData::from).map_err(|x| x.to_string()))
+            }
+        }
+        ("typed", 13) | ("builder", 13) => {
+            let strs = charstrs_of(rdata)?;
+            if strs.len() != 2 { return None; }
+            let (cpu, os) = if mkd == "typed" {
+                (CharStr::from_octets(Bytes::copy_from_slice(&strs[0])).ok()?, CharStr::from_octets(Bytes::copy_from_slice(&strs[1])).ok()?)
+            } else {
+                let mut a = CharStrBuilder::new_bytes();
+                for chunk in strs[0].chunks(3) { if a.append_slice(chunk).is_err() { return e("charstr builder".into()); } }
+                if a.len() != strs[0].len() || a.is_empty() != strs[0].is_empty() { return e("charstr builder len".into()); }
+                let b = match CharStrBuilder::from_builder(BytesMut::from(&strs[1][..])) { Ok(b) => b, Err(x) => return e(x.to_string()) };
+                (a.finish(), b.finish())
+            };
+            if cpu.len() != strs[0].len() || os.iter().copied().collect::<Vec<u8>>() != strs[1] { return e("charstr content".into()); }
+            Some(Ok(FlatData::from(Hinfo::new(cpu, os))))
+        }
+        ("typed", 2) => Some(name_at(0).map(|n| FlatData::from(Ns::from(n)))),
+        ("typed", 5) => Some(name_at(0).map(|n| FlatData::from(Cname::from(n)))),
+        ("typed", 12) => Some(name_at(0).map(|n| FlatData::from(Ptr::from(n)))),
+        ("typed", 39) => Some(name_at(0).map(|n| FlatData::from(Dname::from(n)))),
+        ("builder", 2) | ("builder", 5) | ("builder", 12) | ("builder", 39) => {
+            // a name over Vec<u8>, converted with OctetsFrom
+            let n = match Name::<Vec<u8>>::from_octets(rdata.to_vec()) { Ok(n) => n, Err(x) => return e(x.to_string()) };
+            let r: Result<FlatData, ()> = match rtype {
+                2 => Ns::<Name<Bytes>>::try_octets_from(Ns::new(n)).map(FlatData::from).map_err(|_| ()),
+                5 => Cname::<Name<Bytes>>::try_octets_from(Cname::new(n)).map(FlatData::from).map_err(|_| ()),
+                12 => Ptr::<Name<Bytes>>::try_octets_from(Ptr::new(n)).map(FlatData::from).map_err(|_| ()),
+                _ => Dname::<Name<Bytes>>::try_octets_from(Dname::new(n)).map(FlatData::from).map_err(|_| ()),
+            };
+            Some(r.map_err(|_| "octets_from".to_string()))
+        }
+        ("typed", 15) | ("builder", 15) if rdata.len() >= 3 =>
+            Some(name_at(2).map(|n| FlatData::from(Mx::new(u16::from_be_bytes([rdata[0], rdata[1]]), n)))),
+        ("typed", t) | ("builder", t) if t == 65280 || t == 1234 =>
+            Some(UnknownRecordData::from_octets(Rtype::from_int(t), Bytes::copy_from_slice(rdata)).map(FlatData::from).map_err(|x| x.to_string())),
+        _ => None,
+    }
+}
+
+/// The record, built by route `mk` (record) x `mkd` (data).
+pub fn record_via(mk: &str, mkd: &str, owner: &[u8], class: u16, ttl: u32, rtype: u16, rdata: &[u8])
+    -> Result<FlatRecord, String>
+{
+    let base = record_from_wire(owner, class, ttl, rtype, rdata)?;
+    let data = match data_via(mkd, rtype, rdata) {
+        Some(d) => {
+            let d = d?;
+            if d != *base.data() { return Err(format!("data route {} builds different data", mkd)); }
+            d
+        }
+        None => base.data().clone(),
+    };
+    let o = base.owner().clone();
+    let c = Class::from_int(class);
+    let rec: FlatRecord = match mk {
+        "tuple_u32" => Record::from((o, c, ttl, data)),
+        "tuple_ttl" => Record::from((o, c, ttl_via_units(ttl), data)),
+        "in_default" => { let mut r = Record::from((o, ttl, data)); if class != 1 { r.set_class(c); } r }
+        "header" => RecordHeader::new(o, Rtype::from_int(rtype), c, Ttl::from_secs(ttl), rdata.len() as u16).into_record(data),
+        "parse" => {
+            // the whole record from its wire form
+            let mut w = owner.to_vec();
+            w.extend_from_slice(&rtype.to_be_bytes());
+            w.extend_from_slice(&class.to_be_bytes());
+            w.extend_from_slice(&ttl.to_be_bytes());
+            w.extend_from_slice(&(rdata.len() as u16).to_be_bytes());
+            w.extend_from_slice(rdata);
+            let b = Bytes::from(w);
+            let mut p = Parser::from_ref(&b);
+            let h = RecordHeader::<ParsedName<Bytes>>::parse_and_skip(&mut p).map_err(|e| format!("parse_and_skip: {}", e))?;
+            if p.remaining() != 0 || h.rdlen() as usize != rdata.len() { return Err("parse_and_skip: position".into()); }
+            let mut p = Parser::from_ref(&b);
+            let r = Record::<ParsedName<Bytes>, ZoneRecordData<Bytes, ParsedName<Bytes>>>::parse(&mut p)
+                .map_err(|e| format!("Record::parse: {}", e))?.ok_or("Record::parse: none")?;
+            let (po, pd) = r.clone().into_owner_and_data();
+            let fo: Name<Bytes> = po.flatten_into();
+            let fd: FlatData = pd.flatten_into();
+            Record::new(fo, r.class(), r.ttl(), fd)
+        }
+        _ => Record::new(o, c, Ttl::from_secs(ttl), data),
+    };
+    Ok(rec)
+}
+
+fn fmt_kind<T: ZonefileFmt + std::fmt::Display>(r: &T, kind: &str) -> String {
+    match kind {
+        "simple" => format!("{}", r.display_zonefile(DisplayKind::Simple)),
+        "tabbed" => format!("{}", r.display_zonefile(DisplayKind::Tabbed)),
+        "multiline" => format!("{}", r.display_zonefile(DisplayKind::Multiline)),
+        _ => format!("{}", r),
+    }
+}
+
+/// The record written by route `wr`: as it is, with AllRecordData as data
+/// type, through a reference, with parsed (not flattened) names.
+pub fn write_record_via(wr: &str, r: &FlatRecord, kind: &str) -> String {
+    let mut s = match wr {
+        "all" => {
+            let d: AllRecordData<Bytes, Name<Bytes>> = r.data().clone().into();
+            fmt_kind(&Record::new(r.owner().clone(), r.class(), r.ttl(), d), kind)
+        }
+        "ref" => fmt_kind(&r, kind),
+        "parsed" => {
+            let mut w: Vec<u8> = Vec::new();
+            let _ = r.compose(&mut w);
+            let b = Bytes::from(w);
+            let mut p = Parser::from_ref(&b);
+            match Record::<ParsedName<Bytes>, ZoneRecordData<Bytes, ParsedName<Bytes>>>::parse(&mut p) {
+                Ok(Some(pr)) => fmt_kind(&pr, kind),
+                _ => "<Record::parse failed>".to_string(),
+            }
+        }
+        _ => fmt_kind(r, kind),
+    };
+    s.push('\n');
+    s
+}
+
+/// A zone: all records through ONE FormatWriter, FormatWriter::newline
+/// after each record.
+pub struct ZoneOf<'a>(pub &'a [FlatRecord]);
+impl ZonefileFmt for ZoneOf<'_> {
+    fn fmt(&self, p: &mut impl Formatter) -> zonefile_fmt::Result {
+        for r in self.0 {
+            r.fmt(p)?;
+            p.newline()?;
+        }
+        Ok(())
+    }
+}
+pub fn write_zone_fmt(rs: &[FlatRecord], kind: &str) -> String {
+    let z = ZoneOf(rs);
+    match kind {
+        "tabbed" => format!("{}", z.display_zonefile(DisplayKind::Tabbed)),
+        "multiline" => format!("{}", z.display_zonefile(DisplayKind::Multiline)),
+        _ => format!("{}", z.display_zonefile(DisplayKind::Simple)),
+    }
+}
+
+/// A FormatWriter of the user's own (the trait is public): collects tokens.
+#[derive(Default)]
+pub struct TokenCollector { pub toks: Vec<String> }
+impl FormatWriter for TokenCollector {
+    fn fmt_token(&mut self, args: std::fmt::Arguments<'_>) -> zonefile_fmt::Result { self.toks.push(format!("{}", args)); Ok(()) }
+    fn begin_block(&mut self) -> zonefile_fmt::Result { Ok(()) }
+    fn end_block(&mut self) -> zonefile_fmt::Result { Ok(()) }
+    fn fmt_comment(&mut self, _args: std::fmt::Arguments<'_>) -> zonefile_fmt::Result { Ok(()) }
+    fn newline(&mut self) -> zonefile_fmt::Result { Ok(()) }
+}
+
+/// The reader over `text`, set up by route `ctor`, then configured.
+pub fn zonefile_via(ctor: &str, text: &[u8], o: &ReadOpts) -> Result<Zonefile, String> {
+    let mut zone = match ctor {
+        "from_str" => Zonefile::from(std::str::from_utf8(text).map_err(|_| "text is not UTF-8".to_string())?),
+        "load" => { let mut src: &[u8] = text; Zonefile::load(&mut src).map_err(|e| e.to_string())? }
+        "bufmut" => {
+            let mut z = Zonefile::new();
+            for chunk in text.chunks(7) {
+                if z.remaining_mut() < chunk.len() { return Err("remaining_mut too small".into()); }
+                z.put_slice(chunk);
+            }
+            z
+        }
+        "extend" => { let mut z = Zonefile::with_capacity(0); for chunk in text.chunks(5) { z.extend_from_slice(chunk); } z }
+        "default_reserve" => { let mut z = Zonefile::default(); z.reserve(text.len() + 1); z.extend_from_slice(text); z }
+        _ => Zonefile::from(text),
+    };
+    if o.allow_invalid {
+        zone = zone.allow_invalid();
+    }
+    if let Some(w) = o.origin {
+        zone.set_origin(Name::<Bytes>::from_octets(Bytes::copy_from_slice(w)).map_err(|e| e.to_string())?);
+    }
+    if let Some(c) = o.default_class {
+        zone.set_default_class(Class::from_int(c));
+    }
+    Ok(zone)
+}
+
+/// Read to exhaustion like `read_all`, reader set up by `ctor`; `off` is
+/// Zonefile::current_offset() after the last call.
+pub fn read_all_via(ctor: &str, text: &[u8], o: &ReadOpts) -> Value {
+    let mut zone = match zonefile_via(ctor, text, o) { Ok(z) => z, Err(e) => return json!({"ctor_failed": e}) };
+    let mut entries = vec![];
+    for _ in 0..text.len() + 3 {
+        match zone.next_entry() {
+            Ok(Some(Entry::Record(r))) => entries.push(record_json(&r)),
+            Ok(Some(Entry::Include { path, .. })) => entries.push(json!({"include": json_bytes(path.as_str().as_bytes())})),
+            Ok(None) => return json!({"entries": entries, "err": false}),
+            Err(_) => return json!({"entries": entries, "err": true}),
+        }
+    }
+    json!({"entries": entries, "err": true, "no_progress": true})
+}
